@@ -36,335 +36,113 @@ def run_tlc_jobs(ctx, jobs, par=4):
             res[futs[f]] = f.result()
     return res
 
-# ---------------------------------------------------------------------------------------------- Lz layer
-def replay_lz(ctx, D, lz, plans_known, plans_raw, dict_rows):
-    n = 0
-    seen = set()
-    def viol(key, detail, obj):
-        if key not in seen:
-            seen.add(key)
-            ctx.violation(key, detail, obj)
-    vmap = {"run": "STREAM_END", "end": "STREAM_END", "dist": "DATA_ERROR", "size": "DATA_ERROR", "eopm": "DATA_ERROR"}
-    for p in plans_known:
-        if not p['syms']:
+# ---------------------------------------------------------------------------------------------- workers
+def run_phase(ctx, phase, args, nitems, so, shards=1, catseed=0, timeout=1500, pid="c03", module="harness.pydrv.c03phases"):
+    """Run a replay phase in `shards` worker processes.  A worker that dies (sanitizer report, assertion, signal) is a
+    finding: violation crash:<phase>:<what>; the shard is restarted after the item that was being executed."""
+    import subprocess, sys, re
+    env = build.asan_env(); env["PYTHONPATH"] = HERE
+    env["ASAN_OPTIONS"] = env.get("ASAN_OPTIONS", "") + ":detect_leaks=0"
+    for k in ("VERIF_REPO", "VERIF_BUILD"):
+        if k in os.environ:
+            env[k] = os.environ[k]
+    def shard_args(k):
+        """split every list argument named in SHARDED round-robin is not possible (indices matter): contiguous slices"""
+        return args(k, shards) if callable(args) else args
+    procs = []
+    for k in range(shards):
+        a = shard_args(k)
+        jobp = os.path.join(ctx.workdir, "%s.%s.%d.job.json" % (pid, phase, k))
+        outp = os.path.join(ctx.workdir, "%s.%s.%d.out.jsonl" % (pid, phase, k))
+        job = dict(phase=phase, args=a, seed=ctx.seed, quick=ctx.quick, so=so, catseed=catseed, start=0)
+        json.dump(job, open(jobp, "w"))
+        open(outp, "w").close()
+        p = subprocess.Popen([sys.executable, "-m", module, jobp, outp], cwd=HERE, env=env, stdout=subprocess.PIPE, stderr=subprocess.STDOUT, text=True)
+        procs.append([p, jobp, outp, job, 0])
+    total = 0
+    crashes = 0
+    while procs:
+        p, jobp, outp, job, restarts = procs.pop(0)
+        try:
+            out, _ = p.communicate(timeout=timeout)
+        except subprocess.TimeoutExpired:
+            p.kill(); out, _ = p.communicate(); out += "\n(worker timeout)"
+        begun = None; done = None
+        for line in open(outp):
+            try:
+                d = json.loads(line)
+            except ValueError:
+                continue
+            e = d.get("e")
+            if e == "begin":
+                begun = d
+            elif e == "violation":
+                ctx.violation(d["key"], d["detail"], d.get("replay"))
+            elif e == "case":
+                ctx.case(key=d["key"])
+            elif e == "sample":
+                ctx.sample(d["obj"])
+            elif e == "traces":
+                ctx.add_traces(d["n"])
+            elif e == "note":
+                ctx.notes.append(d["msg"])
+            elif e == "log":
+                ctx.log(d["msg"])
+            elif e == "done":
+                done = d["n"]
+        if p.returncode == 77:
+            raise MachineryError("%s worker: harness error\n%s" % (phase, out[-3000:]))
+        if done is not None and p.returncode == 0:
+            total += done
             continue
-        # LZMA2 chunk(s): size known = sum of all symbols, marker forbidden
-        data = D.lz_plan_to_lzma2(p)
-        exp = bytes(D.BYTEMAP[b] for b in p['out'])
-        pre = bytes([0x41, 0xFE, 0x41, 0xFE]) if p['ctx'] != 'fresh' else b""
-        ret, out, _, _ = D.raw_decode([(lz.FILTER_LZMA2, D.lzma1_opts(4096))], data)
-        want = vmap[p['v']]
-        last = p['syms'][-1]['t']
-        ctx.case(key=("lz2", p['ctx'], json.dumps(p['syms'])))
-        n += 1
-        if ret != want:
-            viol("lz:ret:%s:%s:%s" % (p['ctx'], last, p['v']), "LZMA2 chunk %s: ret %s expected %s" % (p, ret, want), dict(kind="lz", plan=p, data=data.hex()))
-        elif want == "STREAM_END" and out != pre + exp:
-            viol("lz:out:%s:%s" % (p['ctx'], last), "LZMA2 chunk %s: output %s expected %s" % (p, out.hex(), (pre + exp).hex()), dict(kind="lz", plan=p, data=data.hex()))
-        elif want != "STREAM_END" and not (pre + exp).startswith(out[:len(pre) + len(exp)]) and p['v'] != 'size':
-            viol("lz:outprefix:%s:%s" % (p['ctx'], last), "LZMA2 chunk %s: output before the error %s" % (p, out.hex()), dict(kind="lz", plan=p))
-    for p in plans_raw:
-        # raw LZMA1, size unknown: must end with the marker
-        syms = p['syms']
-        has_eopm = bool(syms) and syms[-1]['t'] == 'eopm'
-        data = D.lz_plan_to_lzma1(p, eopm=False)
-        exp = bytes(D.BYTEMAP[b] for b in p['out'])
-        ret, out, _, _ = D.raw_decode([(lz.FILTER_LZMA1, D.lzma1_opts(4096))], data)
-        want = {"end": "STREAM_END", "run": "BUF_ERROR", "dist": "DATA_ERROR"}.get(p['v'], "DATA_ERROR")
-        ctx.case(key=("lz1", json.dumps(syms)))
-        n += 1
-        if ret != want:
-            viol("lz1:ret:%s:%s" % (syms[-1]['t'] if syms else "empty", p['v']), "raw LZMA1 %s: ret %s expected %s" % (p, ret, want), dict(kind="lz1", plan=p, data=data.hex()))
-        elif want == "STREAM_END" and out != exp:
-            viol("lz1:out", "raw LZMA1 %s: output %s expected %s" % (p, out.hex(), exp.hex()), dict(kind="lz1", plan=p))
-    # dictionary-size boundary at the real constants (EvalLzDict)
-    from harness.glue import lzma as glz, alone as galone
-    for row in dict_rows:
-        Dz, W, d = row['D'], row['W'], row['d']
-        rng = random.Random(W * 7919 + d)
-        lits = [('lit', rng.randrange(256)) for _ in range(W)]
-        syms = lits + [('match', d, 2), ('eopm',)]
-        data = glz.encode_symbols(syms, 3, 0, 2)
-        want = "STREAM_END" if row['impl'] else "DATA_ERROR"
-        hist = bytes(b for _, b in lits)
-        exp = hist + (bytes([hist[W - 1 - d], hist[W - d] if d >= 1 else hist[W - 1]]) if row['impl'] and d < W else b"")
-        if row['impl'] and d < W:
-            h = bytearray(hist)
-            for _ in range(2):
-                h.append(h[len(h) - d - 1])
-            exp = bytes(h)
-        ret, out, _, _ = D.raw_decode([(lz.FILTER_LZMA1, D.lzma1_opts(Dz))], data, out_cap=1 << 15)
-        ctx.case(key=("lzdict", Dz, W, d))
-        n += 1
-        cls = "relaxed" if row['relaxed'] else ("valid" if row['format'] else "invalid")
-        if ret != want:
-            viol("lzdict:ret:%s" % cls, "dict_size %d, %d bytes written, dist0 %d (%s): raw LZMA1 ret %s expected %s" % (Dz, W, d, cls, ret, want), dict(kind="lzdict", row=row))
-        elif want == "STREAM_END" and out != exp:
-            viol("lzdict:out:%s" % cls, "dict_size %d W %d d %d: wrong bytes copied" % (Dz, W, d), dict(kind="lzdict", row=row))
-        # the same through the .lzma container (header dictionary size = D, unknown size, marker)
-        if Dz >= 1:
-            al = galone.build(symbols=syms[:-1], lc=3, lp=0, pb=2, dict_size=Dz, usize=None, eopm=True)
-            c = lz.Coder()
-            if c.init("lzma_alone_decoder", lz.UINT64_MAX) == lz.OK:
-                r2, o2, _, _ = D.drive(c, al, out_cap=1 << 15)
-                c.end()
-                if r2 != want:
-                    viol("lzdict:alone:ret:%s" % cls, "dict_size %d W %d d %d (%s): .lzma ret %s expected %s" % (Dz, W, d, cls, r2, want), dict(kind="lzdict", row=row))
-                elif want == "STREAM_END" and o2 != exp:
-                    viol("lzdict:alone:out:%s" % cls, ".lzma wrong bytes", dict(kind="lzdict", row=row))
-                n += 1
-    return n
+        # the worker died
+        crashes += 1
+        what = "unknown"
+        m = re.search(r"SUMMARY: (\w+): ([\w-]+)(?: [^\n]* in (\w+))?", out)
+        if m:
+            what = "%s:%s" % (m.group(2), m.group(3) or "")
+        m2 = re.search(r"(\w+\.c):\d+: (\w+): Assertion", out)
+        if m2:
+            what = "assert:%s" % m2.group(2)
+        m3 = re.search(r"runtime error: ([^\n]{0,80})", out)
+        if m3 and not m:
+            what = "ubsan:" + re.sub(r"[^a-z]+", "-", m3.group(1).lower())[:40]
+        if "worker timeout" in out:
+            what = "hang"
+        if begun is None and p.returncode not in (-6, -11, 134, 139, 1) and "Sanitizer" not in out and not m2:
+            raise MachineryError("%s worker failed before the first item (rc %s)\n%s" % (phase, p.returncode, out[-3000:]))
+        if "Traceback (most recent call last)" in out and "Sanitizer" not in out and not m2:
+            raise MachineryError("%s worker: python error\n%s" % (phase, out[-3000:]))
+        ctx.violation("crash:%s:%s" % (phase, what), "the library crashed / did not return while executing %s\n%s" % (
+            json.dumps(begun.get("desc") if begun else None)[:1500], out[-2500:]), dict(kind="crash", phase=phase, item=begun))
+        if begun is not None and restarts < 6:
+            job["start"] = begun["i"] + 1
+            json.dump(job, open(jobp, "w"))
+            open(outp, "w").close()
+            p2 = subprocess.Popen([sys.executable, "-m", module, jobp, outp], cwd=HERE, env=env, stdout=subprocess.PIPE, stderr=subprocess.STDOUT, text=True)
+            procs.append([p2, jobp, outp, job, restarts + 1])
+    return total
 
-# ---------------------------------------------------------------------------------------------- LZMA2 layer
-def replay_lzma2(ctx, D, lz, plans, limit=None):
-    """GenLzma2 plans -> raw LZMA2 decoder.  Plans that fail at chunk k are equivalent for chunks[:k]: dedupe."""
-    uniq = {}
-    for p in plans:
-        seen = p['chunks'][:p['nseen']]
-        key = json.dumps(seen)
-        if key not in uniq:
-            uniq[key] = dict(chunks=seen, ret=p['ret'], out=p['out'])
-    items = list(uniq.values())
-    if limit and len(items) > limit:
-        ctx.rng.shuffle(items)
-        # keep every accepted plan, sample the rejected ones
-        acc = [x for x in items if x['ret'] == 'STREAM_END']
-        rej = [x for x in items if x['ret'] != 'STREAM_END']
-        items = acc + rej[:max(0, limit - len(acc))]
-    n = 0
-    seenk = set()
-    for it in items:
-        rng = random.Random(ctx.seed * 100003 + n)
-        conc = D.concretise_chunks(it['chunks'], rng)
-        tail = b"" if it['ret'] == 'STREAM_END' else bytes(rng.randrange(1, 256) for _ in range(24))
-        want = {"STREAM_END": {"STREAM_END"}, "DATA_ERROR": {"DATA_ERROR"}, "DATA_OR_BUF": {"DATA_ERROR", "BUF_ERROR"},
-                "run": {"BUF_ERROR"}}[it['ret']]
-        data = conc['data'] + (tail if it['ret'] in ("DATA_ERROR", "DATA_OR_BUF") else b"")
-        exp = b"".join(conc['outs'][i - 1] for i in it['out'])
-        for mode in ("oneshot", "bytewise"):
-            sl = None if mode == "oneshot" else [1] * len(data)
-            ret, out, _, tin = D.raw_decode([(lz.FILTER_LZMA2, D.lzma1_opts(4096))], data, slices=sl)
-            n += 1
-            kinds = "/".join("%s.%s%s" % (c['k'], c['reset'], "" if c['pl'] == 'ok' and c['props'] == 'ok' else "!" + c['pl'] + c['props']) for c in it['chunks'])
-            ctx.case(key=("l2", kinds, mode))
-            if ret not in want:
-                k = "lzma2:ret:%s:%s" % (kinds, mode)
-                if k not in seenk:
-                    seenk.add(k)
-                    ctx.violation(k, "chunks %s: raw LZMA2 decoder returned %s, model %s" % (kinds, ret, sorted(want)), dict(kind="lzma2", chunks=it['chunks'], data=data.hex()))
-            elif ret == "STREAM_END" and (out != exp or tin != len(conc['data'])):
-                k = "lzma2:out:%s" % kinds
-                if k not in seenk:
-                    seenk.add(k)
-                    ctx.violation(k, "chunks %s: output/consumption differs (%d/%d bytes, consumed %d/%d)" % (kinds, len(out), len(exp), tin, len(conc['data'])),
-                                  dict(kind="lzma2", chunks=it['chunks'], data=data.hex()))
-            elif ret != "STREAM_END" and not out.startswith(exp):
-                k = "lzma2:outprefix:%s" % kinds
-                if k not in seenk:
-                    seenk.add(k)
-                    ctx.violation(k, "chunks %s: the data of the chunks accepted before the error was not delivered intact" % kinds, dict(kind="lzma2", chunks=it['chunks']))
-    return n, len(items)
-
-# ---------------------------------------------------------------------------------------------- container layer
-def lzflags(lz, fl):
-    return (lz.CONCATENATED if fl['concat'] else 0) | (lz.TELL_NO_CHECK if fl['tellNo'] else 0) | \
-           (lz.TELL_UNSUPPORTED_CHECK if fl['tellUnsup'] else 0) | (lz.TELL_ANY_CHECK if fl['tellAny'] else 0) | \
-           (lz.IGNORE_CHECK if fl['ignoreCheck'] else 0)
-
-def describe(af):
-    """short stable description of an abstract file for violation keys (shape only)"""
-    return "+".join("s%d" % len(s['blocks']) for s in af['streams'])
-
-def filter_specs(lz, D, b, props_bytes):
-    """ctypes filter options for lzma_raw_decoder from a Block's abstract filters + the property bytes used"""
-    specs = []
-    for f, pb in zip(b['filters'], props_bytes):
-        fid = D.FILTER_ID[f['id']]
-        if f['id'] == 'lzma2':
-            specs.append((fid, D.lzma1_opts(4096)))
-        elif f['id'] == 'delta':
-            o = lz.OptDelta(); o.type = 0; o.dist = pb[0] + 1
-            specs.append((fid, o))
-        else:
-            if len(pb) == 4:
-                o = lz.OptBcj(); o.start_offset = struct.unpack("<I", pb)[0]
-                specs.append((fid, o))
-            else:
-                specs.append((fid, None))
-    return specs
-
-def replay_xz(ctx, D, lz, plans, cat, mt_every=3):
-    """Every (file, flags) plan through the real entry points."""
-    groups = collections.OrderedDict()
-    for p in plans:
-        k = json.dumps([p['file'], p['flags']], sort_keys=True)
-        g = groups.setdefault(k, dict(p, rets=set()))
-        g['rets'].add(p['ret'])
-    seen = set()
-    def viol(key, detail, obj):
-        if key not in seen:
-            seen.add(key)
-            ctx.violation(key, detail, obj)
-    n = 0
-    sampled = False
-    for gi, g in enumerate(groups.values()):
-        af, fl = g['file'], g['flags']
-        rng = random.Random(ctx.seed * 7 + gi)
-        data, fmap, meaning = D.concretise_file(af, cat, rng)
-        flags = lzflags(lz, fl)
-        exp_done = b"".join(meaning[:len(g['out'])])
-        shape = describe(af)
-        repl = dict(kind="xz", file=af, flags=fl, model=dict(ret=sorted(g['rets']), out=g['out'], tells=g['tells'], pos=g['pos']), bytes=data.hex())
-        where = "%s:%s:b%d" % (g['seq'], "s%d" % g['si'], g['bi'])
-        def compare(api, ret, out, tells, tin, rets, check_tells=True):
-            if ret not in rets:
-                viol("xz:%s:ret:%s:%s->%s" % (api, g['seq'], "/".join(sorted(rets)), ret),
-                     "%s on %s (model stops in %s): returned %s, model says %s" % (api, shape, where, ret, sorted(rets)), repl)
-                return
-            if check_tells and tells != g['tells']:
-                viol("xz:%s:tells:%s" % (api, "/".join(g['tells']) or "none"), "%s: intermediate returns %s, model %s" % (api, tells, g['tells']), repl)
-            if ret in ("STREAM_END", "OK"):
-                if out != exp_done:
-                    viol("xz:%s:out:%s" % (api, shape), "%s: decoded bytes differ from the meaning of the file (%d vs %d bytes)" % (api, len(out), len(exp_done)), repl)
-                if tin is not None and tin != g['pos']:
-                    viol("xz:%s:consumed:%s" % (api, shape), "%s: consumed %d bytes, model %d" % (api, tin, g['pos']), repl)
-            elif not out.startswith(exp_done):
-                viol("xz:%s:outprefix:%s" % (api, g['seq']), "%s: data of the Blocks completed before the error is not intact" % api, repl)
-        if "STREAM_END" in g['rets'] and len(data) != g['size']:
-            raise MachineryError("concretiser and model disagree on the size of %s: %d vs %d" % (shape, len(data), g['size']))
-        # lzma_stream_decoder, everything at once
-        ret, out, tells, tin = D.decode_stream(data, flags)
-        compare("stream_decoder", ret, out, tells, tin, g['rets'])
-        n += 1
-        ctx.case(key=("xz", json.dumps(af, sort_keys=True), json.dumps(fl, sort_keys=True)))
-        # ... byte by byte (the verdict must not depend on it)
-        if gi % 2 == 0:
-            ret, out, tells, tin = D.decode_stream(data, flags, slices=[1] * len(data))
-            compare("stream_decoder/1", ret, out, tells, tin, g['rets'])
-            n += 1
-        # lzma_stream_buffer_decode (no LZMA_TELL_ANY_CHECK there)
-        if not fl['tellAny']:
-            bret, bout, bin_ = D.buffer_decode(data, flags)
-            brets = set()
-            for r in g['rets']:
-                brets.add({"STREAM_END": "OK", "BUF_ERROR": "DATA_ERROR"}.get(r, r))
-            if g['tells'] and bret == g['tells'][0]:
-                # buffer API: the first LZMA_*_CHECK code ends the call (documented in container.h)
-                pass
-            elif g['tells']:
-                viol("xz:buffer_decode:tell", "lzma_stream_buffer_decode returned %s where the stream decoder reports %s first" % (bret, g['tells']), repl)
-            else:
-                compare("buffer_decode", bret, bout if bret == "OK" else exp_done, [], bin_ if bret == "OK" else None, brets, check_tells=False)
-            n += 1
-        # lzma_stream_decoder_mt with two threads
-        if gi % mt_every == 0:
-            ret, out, tells, tin = D.decode_stream(data, flags, mt=2)
-            compare("stream_decoder_mt", ret, out, tells, tin, g['rets'])
-            n += 1
-        # every Block on its own: lzma_block_header_decode + lzma_block_decoder, and the raw filter chain
-        names = {nm: (o, l) for nm, o, l in fmap}
-        done = 0
-        for si, s in enumerate(af['streams']):
-            for bi, b in enumerate(s['blocks']):
-                h0 = names.get("s%d.b%d.header.size" % (si, bi))
-                ck = names.get("s%d.b%d.check" % (si, bi))
-                dt = names.get("s%d.b%d.data" % (si, bi))
-                if h0 is None or ck is None or dt is None:
-                    continue
-                hsz_stated = b['hsz']
-                start = h0[0]
-                end = ck[0] + ck[1]
-                blk_index = done
-                done += 1
-                # what the model says about this Block: error inside it iff the stream model stopped there
-                stopped_here = g['seq'].startswith("BLOCK") and g['si'] == si + 1 and g['bi'] == bi and not ("STREAM_END" in g['rets'])
-                if not stopped_here and blk_index >= len(g['out']):
-                    continue           # never reached by the stream decoder: no prediction
-                hdr = data[start:start + hsz_stated]
-                if len(hdr) < hsz_stated or hsz_stated < 8:
-                    continue
-                rest = data[start + hsz_stated:end]
-                bret, bout, _, btin = D.block_decode(hdr, rest, s['check'], ignore_check=fl['ignoreCheck'])
-                n += 1
-                code = bret.split("_", 1)[1] if bret.startswith(("HDR_", "INIT_")) else bret
-                if stopped_here:
-                    if code not in g['rets'] and not (code == "BUF_ERROR" and "DATA_ERROR" in g['rets'] and g['seq'] == "BLOCK_CODE"):
-                        viol("xz:block_decoder:ret:%s:%s->%s" % (g['seq'], "/".join(sorted(g['rets'])), bret),
-                             "Block s%d.b%d alone: %s, model %s" % (si, bi, bret, sorted(g['rets'])), repl)
-                else:
-                    if bret != "STREAM_END" or bout != meaning[blk_index] or btin != len(rest):
-                        viol("xz:block_decoder:valid:%s" % bret, "valid Block s%d.b%d alone: %s, %d bytes (expected %d), consumed %d of %d" % (
-                            si, bi, bret, len(bout), len(meaning[blk_index]), btin, len(rest)), repl)
-                    # raw decoder with the same chain on the Compressed Data
-                    props = []
-                    p0 = names.get("s%d.b%d.header.f0.props" % (si, bi))
-                    for k in range(len(b['filters'])):
-                        o, l = names["s%d.b%d.header.f%d.props" % (si, bi, k)]
-                        props.append(data[o:o + l])
-                    rret, rout, _, rtin = D.raw_decode(filter_specs(lz, D, b, props), data[dt[0]:dt[0] + dt[1]])
-                    n += 1
-                    if rret != "STREAM_END" or rout != meaning[blk_index]:
-                        viol("xz:raw_decoder:valid:%s" % rret, "raw decoder with chain %s: %s, %d bytes (expected %d)" % (
-                            [f['id'] for f in b['filters']], rret, len(rout), len(meaning[blk_index])), repl)
-        if not sampled and "DATA_ERROR" in g['rets']:
-            sampled = True
-            ctx.sample(dict(kind="abstract_file_with_prediction", file=af, flags=fl, model_ret=sorted(g['rets']), bytes=data.hex()))
-    return n, len(groups)
-
-# ---------------------------------------------------------------------------------------------- (V) tests/files
 def probe_buffer_api(ctx, D, so):
-    """True iff lzma_stream_buffer_decode can be given truncated input in-process."""
+    """lzma_stream_buffer_decode on a truncated file, in a child process (regression probe for a repaired defect)."""
     kind, what = D.probe_buffer_decode_truncated(so, HERE)
     if kind == 'abort':
         ctx.violation("crash:assert:stream_buffer_decode:truncated",
                       "lzma_stream_buffer_decode() on a truncated .xz file does not return (assertion / crash): " + what,
                       dict(kind="probe", what="lzma_stream_buffer_decode(first len-7 bytes of a valid file)"))
-        return False
-    if what != "DATA_ERROR":
+    elif what != "DATA_ERROR":
         ctx.violation("buffer_decode:truncated:ret:" + what, "lzma_stream_buffer_decode() on a truncated file returned %s, model (BufferDecodeRet) LZMA_DATA_ERROR" % what,
                       dict(kind="probe"))
-    return True
 
-def validate_test_files(ctx, D, lz, buffer_safe):
-    from harness.glue import xz as gxz
-    repo = os.environ.get("VERIF_REPO", "/repo")
-    files = sorted(glob.glob(os.path.join(repo, "tests", "files", "*.xz")))
-    n = 0
-    for path in files:
-        name = os.path.basename(path)
-        data = open(path, "rb").read()
-        g = gxz.parse(data, concatenated=True)
-        ret, out, tells, tin = D.decode_stream(data, lz.CONCATENATED, out_cap=1 << 22)
-        want = gxz.expected_ret(g.verdict)
-        n += 1
-        ctx.case(key=("testfile", name))
-        ctx.add_traces(1)
-        if want is None:
-            ctx.notes.append("tests/files/%s: glue cannot judge (%s)" % (name, g.verdict))
-            continue
-        if ret != want and not (g.verdict.startswith("error:lzma2") and ret == "BUF_ERROR"):
-            ctx.violation("testfile:ret:%s" % name, "%s: liblzma %s, format judge %s (%s %s)" % (name, ret, want, g.verdict, g.detail),
-                          dict(kind="testfile", file=name))
-        elif ret == "STREAM_END" and out != g.output:
-            ctx.violation("testfile:bytes:%s" % name, "%s: decoded bytes differ from the independent decoder (%d vs %d bytes)" % (name, len(out), len(g.output)),
-                          dict(kind="testfile", file=name))
-        elif ret != "STREAM_END" and not g.output.startswith(out) and not out.startswith(g.output):
-            ctx.violation("testfile:partial:%s" % name, "%s: partial output before the error is not a prefix of the judge's" % name, dict(kind="testfile", file=name))
-        # other entry points must agree with the stream decoder on real-world files
-        if ret != "BUF_ERROR" or buffer_safe:
-            bret, bout, _ = D.buffer_decode(data, lz.CONCATENATED, out_cap=1 << 22)
-            if bret != {"STREAM_END": "OK", "BUF_ERROR": "DATA_ERROR"}.get(ret, ret) or (bret == "OK" and bout != out):
-                ctx.violation("testfile:buffer_decode:%s" % name, "%s: lzma_stream_buffer_decode %s vs lzma_stream_decoder %s" % (name, bret, ret), dict(kind="testfile", file=name))
-        mret, mout, _, _ = D.decode_stream(data, lz.CONCATENATED, mt=2, out_cap=1 << 22)
-        if mret != ret or (ret == "STREAM_END" and mout != out):
-            ctx.violation("testfile:mt:%s" % name, "%s: lzma_stream_decoder_mt %s vs lzma_stream_decoder %s" % (name, mret, ret), dict(kind="testfile", file=name))
-    return n
+def slices(items, k, shards):
+    n = len(items)
+    a = n * k // shards; b = n * (k + 1) // shards
+    return items[a:b], a
 
 # ---------------------------------------------------------------------------------------------- run
 def run(ctx):
-    from harness.pydrv import c03drv as D, lz
+    from harness.pydrv import c03drv as D
     L = build.lib("asan")
-    D.ensure_loaded(L["so"])
     quick = ctx.quick
     cat = D.build_catalogue(ctx.seed)
     catp = os.path.join(ctx.workdir, "c03cat.json")
@@ -414,34 +192,60 @@ def run(ctx):
         if r.violation:
             ctx.violation("model:%s:%s" % (name, r.violation), r.out[-4000:], dict(kind="tlc_counterexample", run=name))
         ctx.log(name, r.summary())
-    # ---- replay
+    # ---- replay (worker processes)
+    so = L["so"]
     pk = plans_from_tlc(res["GenLz"].out); pr = plans_from_tlc(res["GenLzRaw"].out); rows = plans_from_tlc(res["EvalLzDict"].out)
-    if len(pk) < 1000 or len(pr) < 100 or len(rows) < 100:
+    if len(pk) < 1000 or len(pr) < 100 or len(rows) < 300:
         raise MachineryError("Lz plan generation produced too little: %d %d %d" % (len(pk), len(pr), len(rows)))
     if quick:
         # every path of <= 2 symbols, a seeded sample of the longer ones
         short = [p for p in pk if len(p['syms']) <= 2]
         longp = [p for p in pk if len(p['syms']) > 2]
         ctx.rng.shuffle(longp)
-        pk = short + longp[:4000]
-    n = replay_lz(ctx, D, lz, pk, pr, rows)
-    ctx.log("Lz: %d symbol-sequence executions (LZMA2 chunks, raw LZMA1, dictionary boundary table)" % n)
+        pk = short + longp[:3000]
+    NS = 4
+    def lz_args(k, shards):
+        return dict(known=slices(pk, k, shards)[0], raw=slices(pr, k, shards)[0], rows=slices(rows, k, shards)[0])
+    n = run_phase(ctx, "lz", lz_args, None, so, shards=NS)
+    ctx.log("Lz: %d executions on %d symbol sequences + %d table rows (LZMA2 chunks, raw LZMA1, .lzma; one-shot and byte-wise)" % (n, len(pk) + len(pr), len(rows)))
     l2 = plans_from_tlc(res["GenLzma2"].out)
     if len(l2) < 1000:
         raise MachineryError("LZMA2 plan generation produced only %d plans" % len(l2))
-    n2, u2 = replay_lzma2(ctx, D, lz, l2, limit=1200 if quick else None)
-    ctx.log("Lzma2: %d executions of %d distinct chunk sequences" % (n2, u2))
+    uniq = collections.OrderedDict()
+    for p in l2:
+        seen = p['chunks'][:p['nseen']]
+        key = json.dumps(seen)
+        if key not in uniq:
+            uniq[key] = dict(chunks=seen, ret=p['ret'], out=p['out'])
+    items = list(uniq.values())
+    n2 = run_phase(ctx, "lzma2", lambda k, sh: dict(items=slices(items, k, sh)[0]), None, so, shards=2)
+    ctx.log("Lzma2: %d executions of %d distinct chunk sequences" % (n2, len(items)))
     xp = plans_from_tlc(res["GenXzStreamDec"].out)
     if len(xp) < 1000:
         raise MachineryError("container plan generation produced only %d plans" % len(xp))
-    n3, u3 = replay_xz(ctx, D, lz, xp, cat)
-    ctx.log("Xz: %d executions on %d (abstract file, flags) plans" % (n3, u3))
-    ctx.add_traces(u3 + u2)
-    buffer_safe = probe_buffer_api(ctx, D, L["so"])
-    nv = validate_test_files(ctx, D, lz, buffer_safe)
+    groups = collections.OrderedDict()
+    for p in xp:
+        k = json.dumps([p['file'], p['flags']], sort_keys=True)
+        g = groups.get(k)
+        if g is None:
+            g = groups[k] = dict(p, rets=[])
+        if p['ret'] not in g['rets']:
+            g['rets'].append(p['ret'])
+    glist = list(groups.values())
+    def xz_args(k, shards):
+        part, base = slices(glist, k, shards)
+        return dict(groups=part, base=base)
+    n3 = run_phase(ctx, "xz", xz_args, None, so, shards=NS, catseed=ctx.seed)
+    ctx.log("Xz: %d executions on %d (abstract file, flags) plans" % (n3, len(glist)))
+    ctx.add_traces(len(glist) + len(items))
+    probe_buffer_api(ctx, D, so)
+    repo = os.environ.get("VERIF_REPO", "/repo")
+    files = sorted(glob.glob(os.path.join(repo, "tests", "files", "*.xz")))
+    nv = run_phase(ctx, "testfiles", dict(files=files), None, so, shards=1)
     ctx.log("tests/files: %d .xz files compared (verdict and decoded bytes)" % nv)
+    ctx.extra["executions"] = n + n2 + n3 + nv
     ctx.sample(dict(kind="lz_plan", plan=pk[len(pk) // 2]))
-    ctx.sample(dict(kind="lzma2_plan", plan=l2[len(l2) // 3]))
+    ctx.sample(dict(kind="lzma2_plan", plan=items[len(items) // 3]))
     ctx.assumptions += [
         "CRC32 / CRC64 / SHA-256 detect every modelled difference (a stored value over changed bytes never matches)",
         "the glue library (harness/glue, written from the format documents, closure-tested) serialises abstract objects faithfully",
